@@ -153,6 +153,36 @@ inline std::string check_manifold_invariant(const Manifold& m, const MeshGL64& g
   }
   for (size_t i = 0; i < nv; i++)
     if (!referenced[i]) return "unreferenced_vertex";
+  {
+    // 2-manifold, not merely "every edge matched": the triangles around a vertex must form ONE fan
+    // (a pinched vertex joins two fans). Outgoing edges per vertex == length of the fan reached by
+    // walking  (v -> a)  =>  opposite of the previous edge of that triangle.
+    std::unordered_map<uint64_t, uint64_t> nextOut;  // (v,a) directed edge -> third vertex c of triangle (v,a,c)
+    nextOut.reserve(nt * 3 * 2);
+    std::vector<uint32_t> outDeg(nv, 0);
+    std::vector<uint64_t> anyOut(nv, (uint64_t)-1);
+    for (size_t t = 0; t < nt; t++) {
+      uint64_t v[3] = {root(g.triVerts[3 * t]), root(g.triVerts[3 * t + 1]), root(g.triVerts[3 * t + 2])};
+      for (int k = 0; k < 3; k++) {
+        nextOut[(v[k] << 32) | v[(k + 1) % 3]] = v[(k + 2) % 3];
+        outDeg[v[k]]++;
+        anyOut[v[k]] = v[(k + 1) % 3];
+      }
+    }
+    for (size_t v = 0; v < nv; v++) {
+      if (outDeg[v] == 0) continue;
+      // rotate around v: from edge (v,a) in triangle (v,a,c) go to edge (v,c)
+      uint64_t a = anyOut[v], start = a;
+      uint32_t steps = 0;
+      do {
+        auto it = nextOut.find(((uint64_t)v << 32) | a);
+        if (it == nextOut.end()) return "vertex_fan_broken";
+        a = it->second;
+        steps++;
+      } while (a != start && steps <= outDeg[v]);
+      if (a != start || steps != outDeg[v]) return "pinched_vertex_more_than_one_fan";
+    }
+  }
   size_t nMerged = 0;
   for (size_t i = 0; i < nv; i++)
     if (isRoot[i]) nMerged++;
